@@ -112,7 +112,7 @@ CLASSES = {
     "GeneratorObject": dict(prefix="gobj", params=[("m", "MonId")], state=[("env", "Env")], body=None),
     "GeneratorObjectIterator": dict(
         prefix="goi", params=[("ub", "UB"), ("cfg", "HookCfg")],
-        state=[("cs", "CSt (ofM (asGoi ub)).σ"), ("env", "Env"), ("running", "Bool"), ("hs", "HookSt"),
+        state=[("cs", "CSt ub.σ"), ("env", "Env"), ("running", "Bool"), ("hs", "HookSt"),
                ("evs", "List HookEv")], body="(ofM (asGoi ub))"),
 }
 OOB_STATE = [("env", "Env")]      # Monitor.oob touches only the monitor cell
